@@ -280,38 +280,44 @@ fn gen_calls(rng: &mut Rng, dir: &std::path::Path) -> Vec<Call> {
 
 const TERMS: [&str; 7] = ["popen", "join", "capture", "communicate", "stream_stdout", "stream_stderr", "stream_stdin"];
 
-/// Run `e` with terminator `term`; returns Ok(captured stdout if any) or Err(refused/failed text)
-fn terminate(e: Exec, term: &str) -> Result<(), String> {
+/// Run `e` with terminator `term`; Err(refused/failed text).  For "popen" the value says whether the finished child
+/// was still in the process table (unreaped) after the Popen had been dropped.
+fn terminate(e: Exec, term: &str) -> Result<Option<bool>, String> {
     match term {
         "popen" => {
             let mut p = e.popen().map_err(|e| format!("error: {}", e))?;
             drop(p.stdin.take());
-            let _ = p.wait();
-            Ok(())
+            let pid = p.pid().map(|x| x as i32);
+            // let the child finish first (it is not reaped by looking at it); then drop the handle: an attached command
+            // is reaped by the drop, a detached one is left alone
+            let finished = pid.map(|pid| ilog::quiet(|| spawn::wait_dead(pid, 5000)) == Some('Z')).unwrap_or(false);
+            drop(p);
+            let after = pid.and_then(|pid| ilog::quiet(|| crate::inspect::proc_state(pid)));
+            Ok(if finished { Some(after == Some('Z')) } else { None })
         }
-        "join" => e.join().map(|_| ()).map_err(|e| format!("error: {}", e)),
-        "capture" => e.capture().map(|_| ()).map_err(|e| format!("error: {}", e)),
+        "join" => e.join().map(|_| None).map_err(|e| format!("error: {}", e)),
+        "capture" => e.capture().map(|_| None).map_err(|e| format!("error: {}", e)),
         "communicate" => {
             let mut c = e.communicate().map_err(|e| format!("error: {}", e))?;
             let _ = c.read();
-            Ok(())
+            Ok(None)
         }
         "stream_stdout" => {
             let mut r = e.stream_stdout().map_err(|e| format!("error: {}", e))?;
             let mut b = vec![];
             let _ = r.read_to_end(&mut b);
-            Ok(())
+            Ok(None)
         }
         "stream_stderr" => {
             let mut r = e.stream_stderr().map_err(|e| format!("error: {}", e))?;
             let mut b = vec![];
             let _ = r.read_to_end(&mut b);
-            Ok(())
+            Ok(None)
         }
         _ => {
             let mut w = e.stream_stdin().map_err(|e| format!("error: {}", e))?;
             let _ = w.write(b"x");
-            Ok(())
+            Ok(None)
         }
     }
 }
@@ -436,6 +442,17 @@ fn seq_case(ctx: &mut Ctx, rng: &mut Rng, i: u64) {
         return;
     }
     check_child(ctx, &model, &exe, &trace, term, "edited");
+    // detached() is part of the description too (and must survive clone): the handle of a detached command does not reap
+    if let Some(Ok(Some(left_unreaped))) = &m.result {
+        ctx.count("detached_settings_compared", 1);
+        if *left_unreaped != model.detached {
+            ctx.violation(
+                &format!("C16/detached/{}", if model.detached { "lost" } else { "invented" }),
+                if model.detached { "detached() was called, yet dropping the handle waited for and reaped the command" } else { "detached() was never called, yet dropping the handle did not reap the finished command" },
+                wit(&trace, J::Null),
+            );
+        }
+    }
     // ---- clones kept aside must still describe what they described when cloned
     for (k, (orig, om)) in originals.into_iter().enumerate() {
         if matches!(om.sin, S::Data(_)) || om.sin == S::Pipe || (om.sout == S::Merge && om.serr == S::Merge) || om.sout == S::Pipe || om.serr == S::Pipe {
@@ -518,12 +535,28 @@ fn shell_case(ctx: &mut Ctx, rng: &mut Rng, _i: u64) {
     }
     let rep = dir.join("sh.rep");
     let n = rng.range(0, 40) as usize;
-    let s: String = (0..n).map(|_| *rng.pick(&['a', ' ', ';', '|', '&', '"', '\'', '$', '(', ')', '*', '\n', '\t', '>', '<', '\\', '`', '#', 'é'])).collect();
+    // any string the platform accepts as one argument: shell metacharacters, non-ASCII text, bytes that are not UTF-8
+    let raw = rng.chance(400);
+    let sb: Vec<u8> = if raw {
+        (0..n).flat_map(|_| rng.pick(&[&b"a"[..], b" ", b";", b"'", b"\"", b"$", b"\xe9", b"\xff", b"\xfe", b"\xc3\xa9", b"\xc3", b"\x80", b"\xf0\x9f", b"\n"]).to_vec()).collect()
+    } else {
+        let t: String = (0..n).map(|_| *rng.pick(&['a', ' ', ';', '|', '&', '"', '\'', '$', '(', ')', '*', '\n', '\t', '>', '<', '\\', '`', '#', 'é'])).collect();
+        t.into_bytes()
+    };
+    let s = show_bytes(&sb, 200);
     let old = std::env::var_os("PATH");
     std::env::set_var("PATH", &dir);
     let rep2 = rep.clone();
-    let s2 = s.clone();
-    let m = run::monitored(move || Exec::shell(&s2).env("VCHILD_REPORT", &rep2).join());
+    let s2 = os(&sb);
+    let route = rng.below(3);
+    let m = run::monitored(move || {
+        let e = Exec::shell(&s2).env("VCHILD_REPORT", &rep2);
+        match route {
+            0 => e.join(),
+            1 => e.clone().join(),
+            _ => e.capture().map(|c| c.exit_status),
+        }
+    });
     match old {
         Some(p) => std::env::set_var("PATH", p),
         None => std::env::remove_var("PATH"),
@@ -531,14 +564,17 @@ fn shell_case(ctx: &mut Ctx, rng: &mut Rng, _i: u64) {
     ctx.count("shell_strings", 1);
     match crate::kid::wait_report(&rep, 3000) {
         Some(r) => {
-            let want: Vec<Vec<u8>> = vec![b"sh".to_vec(), b"-c".to_vec(), s.as_bytes().to_vec()];
+            let want: Vec<Vec<u8>> = vec![b"sh".to_vec(), b"-c".to_vec(), sb.clone()];
             if r.argv != want {
                 ctx.violation("C16/shell-argument", "Exec::shell did not pass its string to the shell as one single argument after `sh -c`", J::obj().set("string", J::s(&s)).set("argv", J::Arr(r.argv.iter().map(|a| J::bytes(a)).collect())));
             }
         }
         None => ctx.violation("C16/shell-not-run", "Exec::shell did not run `sh` from PATH", J::obj().set("string", J::s(&s)).set("result", J::s(&format!("{:?} {:?}", m.result.map(|r| r.map_err(|e| e.to_string())), m.panic)))),
     }
-    ctx.distinct(&format!("shell|{}", s));
+    if raw && std::str::from_utf8(&sb).is_err() {
+        ctx.count("shell_strings_that_are_not_utf8", 1);
+    }
+    ctx.distinct(&format!("shell|{}|{}", route, s));
     run::end_case();
 }
 
